@@ -172,16 +172,15 @@ Proof.
   - discriminate.
 Qed.
 
-(* After at least one pass over a live position the root has a child (so `tree.children[0]` does not panic), for every
-   random stream, scoring, configuration and number of further passes. *)
-Theorem iterate_root_has_child cfg p c fuel rs t rs' :
-  wf p -> in_mask p -> opening_supply p -> game_over p = Some (false, c) ->
+(* After at least one pass over a position with a legal move in AllMoves the root has a child, for every random stream,
+   scoring, configuration and number of further passes. *)
+Lemma iterate_root_has_child_gen cfg p fuel rs t rs' :
+  (exists m q, In m (all_moves p) /\ mv p m = Ok q) ->
   iterate cfg (S fuel) (root_of p) rs = Ok (t, rs') -> t_children t <> [].
 Proof.
-  intros W M OS G H. cbn [Mcts.iterate] in H.
+  intros (m & q & Hin & Hm) H. cbn [Mcts.iterate] in H.
   destruct (iter_step cfg (root_of p) rs) as [[[t1 brk] rs1]| |] eqn:E1; cbn [bind] in H; try discriminate.
   destruct (iter_step_first _ _ _ _ _ _ E1) as (chs & Ep & L).
-  destruct (live_has_legal_move p c W M OS G) as (m & q & Hin & Hm).
   assert (Hne : chs <> []) by (eapply populate_moves_nonempty; eassumption).
   assert (H1 : t_children t1 <> []) by (intros Z0; rewrite Z0 in L; destruct chs; [congruence|discriminate]).
   destruct brk; [injection H as <- _; exact H1|]. clear E1 L.
@@ -191,6 +190,14 @@ Proof.
     assert (L2 := iter_step_children_kept _ _ _ _ _ _ E2 H1).
     assert (H2 : t_children t2 <> []) by (intros Z0; rewrite Z0 in L2; destruct (t_children t1); [congruence|discriminate]).
     destruct brk; [injection H as <- _; exact H2|]. eapply IH; eassumption.
+Qed.
+
+(* ... in particular over a live position (so `tree.children[0]` does not panic) *)
+Theorem iterate_root_has_child cfg p c fuel rs t rs' :
+  wf p -> in_mask p -> opening_supply p -> game_over p = Some (false, c) ->
+  iterate cfg (S fuel) (root_of p) rs = Ok (t, rs') -> t_children t <> [].
+Proof.
+  intros W M OS G. apply iterate_root_has_child_gen. exact (live_has_legal_move p c W M OS G).
 Qed.
 End Scores.
 Print Assumptions descend_spec.
